@@ -15,12 +15,12 @@ import (
 
 // Forced schedules: two frames of one device whose handlers are interleaved operation by
 // operation on the real pipeline (gate hooks), in an order chosen here.
-func schedCase(rng *rand.Rand, w *Writer, suite string, kind string, canonical int) {
+func schedCase(rng *rand.Rand, w *Writer, suite string, kind string, canonical int, nh int) {
 	opts := worldOpts{netID: uint(rng.Intn(1 << 24))}
 	world := newWorld(opts)
 	defer world.close()
 	h := &histRunner{w: world, rng: rng, tags: w.Stats, lastValid: map[int][]byte{}}
-	h.gws = []uint64{genEUI(rng), genEUI(rng)}
+	h.gws = []uint64{genEUI(rng), genEUI(rng), genEUI(rng)}
 	a := eui64(genEUI(rng))
 	h.apps = []protocol.EUI{a}
 	world.store.CreateApplication(model.Application{AppEUI: a})
@@ -94,6 +94,56 @@ func schedCase(rng *rand.Rand, w *Writer, suite string, kind string, canonical i
 	}
 	p1, e1 := mk(f1, h.gws[0], 1000000)
 	p2, e2 := mk(f2, h.gws[1], 2000000)
+	if nh == 3 {
+		// a third handler: one more copy of the first frame (or, for consecutive frames, the frame after the second)
+		f3 := f1
+		if kind == "consecutive" && rng.Intn(2) == 0 {
+			f3 = h.validUplink(d, rng.Intn(2) == 0, false, d.fcnt+2, 1+rng.Intn(200), randBytes(rng, rng.Intn(20)), nil)
+		}
+		p3, e3 := mk(f3, h.gws[2], 3000000)
+		var sched3 []int
+		if canonical > 0 {
+			sched3 = []int{0, 1, 2} // all three read the device before any of them writes
+			if canonical == 2 {
+				sched3 = []int{2, 1, 0, 2, 1, 0, 2, 2, 2, 2, 2, 2, 2, 2, 2, 2, 2, 2, 1, 1, 1, 1, 1, 1, 1, 1, 1, 1, 1, 1}
+			}
+		} else {
+			for i := 0; i < 45; i++ {
+				sched3 = append(sched3, rng.Intn(3))
+			}
+		}
+		trace, status := world.runSchedN([]server.GatewayPacket{p1, p2, p3}, sched3)
+		if status == "HUNG" || !world.quiesce() {
+			w.Case(suite, []string{"kind=" + kind, "pop=" + pop}, "HUNG")
+			return
+		}
+		downs, _, _ := world.collect()
+		appnonce, newaddr := "", uint32(0)
+		var dl []string
+		for _, x := range downs {
+			dl = append(dl, fmt.Sprintf("%s:%d:%x:%d", hx(x.RawMessage), x.Radio.RX1Delay, uint64(x.Gateway.GatewayEUI.ToInt64()), x.Gateway.GatewayClock))
+			if len(x.RawMessage) == 17 && x.RawMessage[0]>>5 == 1 {
+				dec := aesEnc(d.appkey, x.RawMessage[1:])
+				appnonce = hx(dec[0:3])
+				newaddr = binary.LittleEndian.Uint32(dec[6:10])
+			}
+		}
+		if kind == "join-copies" && appnonce == "" {
+			appnonce, newaddr = h.recoverAppNonce(d)
+		}
+		sort.Strings(dl)
+		bits := make([]string, len(sched3))
+		for i, b := range sched3 {
+			bits[i] = fmt.Sprint(b)
+		}
+		tail := fmt.Sprintf(",%s,%x", appnonce, newaddr)
+		w.Case(suite, []string{fmt.Sprintf("cfg=%d:0", opts.netID), fmt.Sprintf("apps=%x", uint64(a.ToInt64())), "pop=" + pop,
+			"pre=" + strings.Join(pre, "|"), "f1=" + e1 + tail, "f2=" + e2 + tail, "f3=" + e3 + tail,
+			"kind=" + kind, "sched=" + strings.Join(bits, "")},
+			"D["+strings.Join(dl, ";")+"] P[] "+h.dumpAll()+" ; trace{"+strings.Join(trace, ",")+"}")
+		w.Count("sched3." + kind)
+		return
+	}
 	var sched []bool
 	switch canonical {
 	case 1, 3: // both handlers read the device before either writes; then the first runs on, then the second
@@ -159,7 +209,19 @@ func schedSuite(suite string, kinds []string, quickN, thoroughN int) suiteFunc {
 			if i < 6*len(kinds) {
 				c = 1 + (i/len(kinds))%3
 			}
-			schedCase(rng, w, suite, kind, c)
+			schedCase(rng, w, suite, kind, c, 2)
+		}
+		// three handlers at once (copies through three gateways; three frames)
+		n3 := 6
+		if tier == "thorough" {
+			n3 = 100
+		}
+		for i := 0; i < n3; i++ {
+			c := 0
+			if i < 2*len(kinds) {
+				c = 1 + (i/len(kinds))%2
+			}
+			schedCase(rng, w, suite, kinds[i%len(kinds)], c, 3)
 		}
 	}
 }
